@@ -11,19 +11,19 @@ NOTE = ("Trusted base: rustc nightly MIR/resolution, /verif/driver (fact extract
 
 # id -> (implemented, technique, text, design_ref)
 P = {
-    "C01": (True, "MIR must-pass-through / who-may-call over the paint routine", "Static rule discharge of the emit protocol (erase->paint->flush->commit order, commit only on success, single emitter). Does not decide the row arithmetic or screen contents.", "3/C01"),
-    "C02": (True, "type facts + dataflow over MultiState", "Static rule discharge: exclusive-access composition (Freeze + guard ownership), frame composed through the logical ordering, every InsertLocation arm maintains ordering, writers of ordering/free_set/members. Not linearizability or alignment arithmetic.", "3/C02"),
+    "C01": (True, "MIR must-pass-through / who-may-call over the paint routine", "Static rule discharge of the emit protocol (erase->paint->flush->commit order, commit only on success, single emitter, erase-phase constants: up by rows-1 / clear exactly rows), suspend clears-before and force-redraws-after, rows measured with the wrap-aware newtype. Does not decide wrap/filler arithmetic or screen contents.", "3/C01"),
+    "C02": (True, "type facts + dataflow over MultiState", "Static rule discharge: exclusive-access composition (Freeze + guard ownership), frame composed through the logical ordering, every InsertLocation arm maintains ordering, slot identity, head-only reaping, member rendering refreshed before the MultiProgress limiter decides, draws of finished bars forced, zombie-row ownership pairing, wrap-aware row counts. Not linearizability or alignment arithmetic.", "3/C02"),
     "C03": (True, "pairing-on-all-exits + const-argument + who-may-copy", "Static rule discharge: text rows never enter the erase count; println always forced; orphan lines moved not copied; zombie-row ownership transfer paired on all exits. Not screen contents.", "3/C03"),
     "C04": (True, "MIR dominance + per-variant arm effects", "Static rule discharge: forced final draw on every finish path, force flag bypasses every limiter, per-variant effects table, drop finishes exactly-once, API->variant map. Not the painted pixels.", "3/C04"),
-    "C05": (True, "MIR dominance (gate structure)", "Static rule discharge of the gate structure only: limiter is the only gate for non-forced frames, position updates precede and do not depend on the gate, paint reads live state. The numeric token-bucket law is NOT decided.", "3/C05"),
+    "C05": (True, "MIR dominance (gate structure)", "Static rule discharge of the gate structure and of structural necessary conditions of the bucket law: limiter is the only gate for non-forced frames; position updates precede and do not depend on the gate; paint reads live state; every admission advances the reference time from `now` and stores a MAX_BURST-capped capacity, refusals are pure; the constants named by the statement (20 / 10 tokens, 1000 ms / rate, 1 ms). The numeric law over all arrival sequences is NOT decided.", "3/C05"),
     "C06": (True, "call-graph dominance + taint (non-interference)", "Static rule discharge: terminal effects reachable only through a Drawable built under a visibility test; logical state does not depend on target kind or draw results.", "3/C06"),
     "C07": (True, "atomic-RMW dataflow + panic-edge ledger", "Static rule discharge: single-RMW discipline on the shared position, update before gate, saturating length arithmetic, fraction clamp, no unaudited panic edge in the position/length API.", "3/C07"),
     "C08": (True, "lock-order/join graph acyclicity over lock classes", "Static rule discharge: lock+join graph acyclic, no guard across blocking waits, stop protocol shape, weak-only ticker captures, no guard in public signatures. 'Promptly' as a time bound is not decided.", "3/C08"),
     "C10": (True, "panic-edge ledger (totality)", "Static rule discharge of totality only: no unaudited panic edge reachable from with_template/template. Rendering fidelity is NOT decided.", "3/C10"),
-    "C11": (True, "dispatch-table arm-effects vs documented keys", "Static rule discharge: each documented key has an arm that formats the expected accessor with the expected formatter; tracker write/tick/reset lifecycle; final tick string when finished. Not text equality.", "3/C11"),
-    "C12": (True, "unit (qualifier) inference Cols/Bytes", "Static rule discharge of unit discipline: column counts and byte offsets are never mixed in padding/truncation. Rendered width for all strings is NOT decided.", "3/C12"),
+    "C11": (True, "dispatch-table arm-effects vs documented keys", "Static rule discharge: each documented key has an arm that formats the expected accessor with the expected formatter; the shared scratch buffer is fresh for every placeholder; tracker write/tick/reset lifecycle and ordering; final tick string when finished. Not text equality.", "3/C11"),
+    "C12": (True, "unit (qualifier) inference Cols/Bytes", "Static rule discharge of unit discipline (columns vs bytes never mixed; no column value as byte offset), padding structure per alignment, every width placeholder always goes through the padded field, wide_msg is a truncating rest-of-line field. Rendered width for all strings is NOT decided; the truncation defect is a listed known finding.", "3/C12"),
     "C14": (True, "field-invariant producer/consumer + panic ledger", "Static rule discharge: every divisor/index bound the renderer takes from a style table is established by a guard at every public writer of that table; render-path panic ledger.", "3/C14"),
-    "C15": (True, "panic-edge ledger (totality)", "Static rule discharge of totality: no unaudited panic edge in format.rs Display impls. Faithfulness/monotonicity NOT decided.", "3/C15"),
+    "C15": (True, "panic-edge ledger (totality)", "Static rule discharge of totality: no unaudited panic edge in format.rs Display impls; plus one structural faithfulness clause (HumanCount digits come from u64 formatting, no float detour). Rounding/monotonicity NOT decided.", "3/C15"),
     "C16": (True, "setter/holder completeness dataflow", "Static rule discharge: every text setter expands with the bar's current width; every width/style change reaches every holder of expanded text; cache invalidation pairing; encapsulation of the raw text.", "3/C16"),
     "C17": (True, "wrapper transparency + effect placement + sibling agreement", "Static rule discharge over every trait method implemented for ProgressBarIter and the rayon wrappers: arguments/results pass through, count exactly once on success from the transferred amount, sync/async siblings agree. Not rayon scheduling.", "3/C17"),
     "C18": (True, "error-discipline rules over MIR (no-unwrap, pure Err exits, commit-on-success, result reporting)", "Static rule discharge: no io::Result is unwrapped; Err exits are pure; commit only after a successful flush; explicit io::Result APIs return the draw result.", "3/C18"),
